@@ -62,7 +62,7 @@ def mods():
 
 
 @contextlib.contextmanager
-def patched(sched, adj=None, agg_threshold=None):
+def patched(sched, adj=None, agg_threshold=None, bw_threshold=None):
     """Rebind the names through which s3transfer reaches threading / time /
     ChunksizeAdjuster (no source change; see DESIGN 2.1, 2.5)."""
     m = mods()
@@ -87,6 +87,19 @@ def patched(sched, adj=None, agg_threshold=None):
             for mod in m['adj']:
                 saved.append((mod, 'ChunksizeAdjuster', mod.ChunksizeAdjuster))
                 mod.ChunksizeAdjuster = factory
+        if bw_threshold is not None:
+            import s3transfer.bandwidth as bwm
+            realbls = bwm.BandwidthLimitedStream
+
+            class ScaledBLS(realbls):
+                def __init__(self, fileobj, leaky_bucket,
+                             transfer_coordinator, time_utils=None,
+                             bytes_threshold=bw_threshold):
+                    super().__init__(fileobj, leaky_bucket,
+                                     transfer_coordinator, time_utils,
+                                     bytes_threshold)
+            saved.append((bwm, 'BandwidthLimitedStream', realbls))
+            bwm.BandwidthLimitedStream = ScaledBLS
         if agg_threshold is not None:
             up = m['upload']
             realagg = up.AggregatedProgressCallback
@@ -221,7 +234,7 @@ def make_subscriber_cls():
             s.point(None, 'cb.on_done')
             isdone = future.done()
             # does result() still block?
-            s.last_wait_blocked = None
+            s.cur.last_wait_blocked = None
             outcome = None
             R.in_on_done_result = self.tidx
             try:
@@ -232,7 +245,7 @@ def make_subscriber_cls():
             except BaseException as e:  # noqa
                 outcome = ('exc', e)
             R.in_on_done_result = None
-            blocked = s.last_wait_blocked
+            blocked = s.cur.last_wait_blocked
             R.trace.ev('cb.done', t=self.tidx, s=self.sidx, done=isdone,
                        blocked=blocked, outcome=outcome)
             self._reenter('done', future)
@@ -248,7 +261,6 @@ def run_case(case, repo_checks=True):
 
     sched = Scheduler(make_policy(case.get('sched')),
                       max_steps=case.get('max_steps', 60000))
-    sched.last_wait_blocked = None
     trace = Trace(sched)
     faults = FaultPlan(case.get('faults'), trace)
     fs = fakefs.MemFS(sched, trace, faults)
@@ -598,7 +610,9 @@ def run_case(case, repo_checks=True):
                     from .oracles import semaphore_state
                     R.sem_state = semaphore_state(R)
 
-    with patched(sched, case.get('adj'), case.get('agg')):
+    R.bw_sleeps = sched.sleep_log
+    with patched(sched, case.get('adj'), case.get('agg'),
+                 case.get('bw_threshold')):
         try:
             sched.run(main)
         except HarnessError as e:
